@@ -17,7 +17,9 @@ From Gnmi Require Subscribe.SubModel Pipeline.PipelineModel Stream.StreamLts Cac
 From Gnmi Require Import Value.ValueModel Cache.CacheModel.
 From Gnmi Require Stream.StreamProofs.
 From Gnmi Require Import Glue.GluePath Glue.GlueMatch Glue.GlueQueue Glue.GlueTree Glue.GlueCacheSub
-  Glue.GlueCacheStream Glue.GlueCachePipe Glue.GlueMulti Glue.GlueHandle.
+  Glue.GlueCacheStream Glue.GlueCachePipe Glue.GlueMulti Glue.GlueHandle Glue.GlueOnce.
+From Gnmi Require CTree.CTreeConc CTree.CTreeConcProofs CTree.CTreeConcAbs CTree.CTreeConcDel
+  Subscribe.SubProofs.
 From Gnmi Require Coalesce.QueueLive Cache.MultiCache Total.IngestModel Total.StreamModel
   CTree.CTreeCheck CTree.CTreeHandle.
 Open Scope string_scope.
@@ -844,3 +846,63 @@ Theorem Glue_stream_queue_item_eventually_delivered :
       exists j, (k <= j)%nat /\ QueueLive.delivers run lab j (enc it).
 Proof. exact stream_queue_item_eventually_delivered. Qed.
 Print Assumptions Glue_stream_queue_item_eventually_delivered.
+
+(** * 6. C05's assumed weak query specification, from C10's theorem over the ctree LTS
+
+    [SubProofs.weak_query] (the hypothesis of C05_once_weak_partial, through
+    [conc_walk]) is implied by CTreeConcDel.query_reports_present_D /
+    query_reports_all_D (= C10_query_stability_with_delete) for Query calls in
+    runs of the ctree LTS -- programs WITHOUT Leaf.Update through a retained
+    handle ([no_hupd_op]; note that the cache overwrites an existing leaf by
+    exactly that operation) -- through the abstraction [rep nu tr s] (tree [tr]
+    holds [nu v] where LTS state [s] holds [v]): every state between the
+    invocation and the return of the Query is represented in the history. *)
+
+(** the invariant of the query thread this needed on top of C10's theorem:
+    everything accumulated matched the query and was stored, with that value,
+    in some state of the run so far *)
+Theorem Glue_query_thread_inv :
+  forall ops q s1 sts s2 i t1,
+    forallb CTreeConcAbs.no_hupd_op ops = true -> CTreeConcProofs.reach ops s1 ->
+    nth_error (CTreeConc.thr s1) i = Some t1 ->
+    CTreeConc.tpc t1 = CTreeConc.PStart (CTreeConc.CQuery q None) ->
+    lrun s1 sts s2 ->
+    exists t2, nth_error (CTreeConc.thr s2) i = Some t2 /\ TI q (seen sts) t2.
+Proof. exact query_thread_inv. Qed.
+Print Assumptions Glue_query_thread_inv.
+
+Theorem Glue_ctree_query_run_weak :
+  forall nu trs q l, ctree_query_run nu trs q l -> SubProofs.weak_query trs q l.
+Proof. exact ctree_query_run_weak. Qed.
+Print Assumptions Glue_ctree_query_run_weak.
+
+Theorem Glue_lts_walk_is_conc_walk :
+  forall nu hist names pf subs ups,
+    lts_walk nu hist names pf subs ups -> SubProofs.conc_walk hist names pf subs ups.
+Proof. exact lts_walk_is_conc_walk. Qed.
+Print Assumptions Glue_lts_walk_is_conc_walk.
+
+(** C05's conclusion WITHOUT the assumed specification, for walks whose
+    per-tree queries are Query calls in runs of the ctree LTS *)
+Theorem Glue_once_weak_from_ctree_lts :
+  forall nu hist names pf subs ups,
+    lts_walk nu hist names pf subs ups ->
+    (forall n, In (SubModel.RUpd n) ups ->
+       exists c t tr p sp full,
+         In c hist /\ In t names /\ assoc t c = Some tr /\ lookup tr p = Some n
+         /\ In sp subs /\ SubModel.complete_path pf sp = Some full /\ qmatch full p = true)
+    /\ (forall t p sp full,
+          In t names -> In sp subs -> SubModel.complete_path pf sp = Some full -> qmatch full p = true ->
+          (forall tr, In tr (SubProofs.trees_of hist t) -> lookup tr p <> None) ->
+          exists n c tr, In (SubModel.RUpd n) ups /\ In c hist /\ assoc t c = Some tr /\ lookup tr p = Some n)
+    /\ ~ In SubModel.RSync ups.
+Proof. exact once_weak_from_ctree_lts. Qed.
+Print Assumptions Glue_once_weak_from_ctree_lts.
+
+(** the hypotheses are satisfiable: a run of the LTS (an Add, then a Query),
+    its history, the walk *)
+Theorem Glue_once_weak_example :
+  lts_walk ex_nu [[("dev"%string, ex_tr)]] ["dev"%string] (Some (SubModel.GP "dev" "" []))
+           [Some (SubModel.GP "" "" [("a"%string, [])])] [SubModel.RUpd (ex_nu 5)].
+Proof. exact ex_lts_walk. Qed.
+Print Assumptions Glue_once_weak_example.
